@@ -84,6 +84,8 @@ pub(crate) struct PerThread {
     pub peer: Vec<usize>,
     pub nowait: Option<(NoWait, u64, Vec<usize>)>,
     pub unyielded: u32,
+    /// lock words (addresses) this thread currently holds
+    pub holds: Vec<usize>,
 }
 
 pub(crate) struct Region {
@@ -166,6 +168,7 @@ pub(crate) fn with_thread<R>(f: impl FnOnce(&mut Exec, usize) -> R) -> R {
                         peer: Vec::new(),
                         nowait: None,
                         unyielded: 0,
+                        holds: Vec::new(),
                     },
                 ));
                 e.threads.len() - 1
@@ -319,6 +322,7 @@ pub fn spin_begin(site: usize) {
         }
         e.threads[i].1.spin[site & 3] = 0;
     });
+    check_not_holding("a signal wait loop is entered");
     if let Some(v) = violation_recorded() {
         if v.starts_with("nowait") {
             violation("nowait", &v);
@@ -358,6 +362,31 @@ pub fn nowait<R>(kind: NoWait, f: impl FnOnce() -> R) -> R {
         }
     });
     r
+}
+
+/// The calling thread acquired / released the lock word at `addr`.
+pub(crate) fn lock_acquired(addr: usize) {
+    with_thread(|e, i| e.threads[i].1.holds.push(addr));
+}
+pub(crate) fn lock_released(addr: usize) {
+    // the releasing thread is the holder (lock_api guards are not sent across
+    // threads by kanal); be tolerant if it is not
+    with(|e| {
+        for t in e.threads.iter_mut() {
+            t.1.holds.retain(|a| *a != addr);
+        }
+    });
+}
+/// Waiting for a peer (signal wait loop, park) while holding the channel lock
+/// makes every other thread's non-blocking operation wait for that peer too.
+pub(crate) fn check_not_holding(what: &str) {
+    let bad = with_thread(|e, i| e.knobs.nowait && !e.threads[i].1.holds.is_empty());
+    if bad {
+        violation(
+            "nowait",
+            &format!("{what} while holding the channel lock: the non-blocking operations of every other thread now wait for that peer too"),
+        );
+    }
 }
 
 /// Should this sleep()/yield_now() really yield to loom?
